@@ -142,9 +142,18 @@ func init() {
 				if s == "" {
 					empty++
 				}
+				// the documented fallback for a tag without a name is the id in the form 0x%04x: whatever looks
+				// like the fallback must be the fallback of THIS id
+				want := fmt.Sprintf("0x%04x", id)
+				if !p && len(s) >= 2 && s[:2] == "0x" && s != want && len(bad) < 20 {
+					bad = append(bad, fmt.Sprintf("IfdType(%d).TagName(0x%04x) = %q: not the documented numeric fallback %q", it, id, s, want))
+				}
 				if it == a.Lo {
-					if s2, p2 := safeStr(func(int) string { return tag.ID(id).String() }, 0); p2 && len(bad) < 20 {
+					s2, p2 := safeStr(func(int) string { return tag.ID(id).String() }, 0)
+					if p2 && len(bad) < 20 {
 						bad = append(bad, fmt.Sprintf("tag.ID(0x%04x).String(): %s", id, s2))
+					} else if s2 != want && len(bad) < 20 {
+						bad = append(bad, fmt.Sprintf("tag.ID(0x%04x).String() = %q, documented form %q", id, s2, want))
 					}
 				}
 			}
